@@ -3,6 +3,7 @@
   prefix-stable, in range, and equal the published FNV-1a.  Property theorems only.
 -/
 import PyProb.Model.Hashes
+import PyProb.Model.Digest
 import PyProb.Spec.Fnv
 
 namespace PyProb.C18
@@ -193,6 +194,47 @@ theorem C18_ascii (cps : List Nat) (h : ∀ c ∈ cps, c < 128) (d : Nat) :
 /-- byte decorator (md5, sha256, any function): a text key always hashes like its UTF-8 bytes -/
 theorem C18_text_bytes_digest (f : Bytes → Nat → Bytes) (cps : List Nat) (d : Nat) :
     withDepthBytes f ⟨true, cps⟩ d = withDepthBytes f ⟨false, utf8 cps⟩ d := rfl
+
+/-! ### the shipped digest strategies (MD5 / SHA-256 as implemented in `Model/Digest.lean`, which the
+    hashes suite compares with `hashlib`) are instances of the byte decorator -/
+
+private theorem leBytes_lt (n v : Nat) : ∀ x ∈ leBytes n v, x < 256 := by
+  induction n generalizing v with
+  | zero => simp [leBytes]
+  | succ n ih =>
+      intro x hx
+      simp only [leBytes, List.mem_cons] at hx
+      rcases hx with rfl | hx
+      · exact Nat.mod_lt _ (by decide)
+      · exact ih _ x hx
+
+private theorem md5_bytes (b : Bytes) : ∀ x ∈ md5 b, x < 256 := by
+  intro x hx
+  simp only [md5, List.mem_append] at hx
+  rcases hx with ((h | h) | h) | h <;> exact leBytes_lt _ _ x h
+
+private theorem sha256_bytes (b : Bytes) : ∀ x ∈ sha256 b, x < 256 := by
+  intro x hx
+  simp only [sha256, List.mem_flatMap] at hx
+  obtain ⟨w, _, hw⟩ := hx
+  simp only [beBytes, List.mem_reverse] at hw
+  exact leBytes_lt _ _ x hw
+
+/-- `default_md5` and `default_sha256`: exactly `depth` values, prefix-stable, unsigned 64-bit, and a
+    text key hashes like its UTF-8 bytes -/
+theorem C18_md5 (key : Key) (d d' : Nat) (h : d ≤ d') :
+    (defaultMd5 key d).length = d ∧ defaultMd5 key d = (defaultMd5 key d').take d ∧
+    (∀ v ∈ defaultMd5 key d, v < 2 ^ 64) :=
+  ⟨C18_len_bytes _ key d, C18_prefix_bytes _ key d d' h, C18_range_bytes _ (fun b _ => md5_bytes b) key d⟩
+
+theorem C18_sha256 (key : Key) (d d' : Nat) (h : d ≤ d') :
+    (defaultSha256 key d).length = d ∧ defaultSha256 key d = (defaultSha256 key d').take d ∧
+    (∀ v ∈ defaultSha256 key d, v < 2 ^ 64) :=
+  ⟨C18_len_bytes _ key d, C18_prefix_bytes _ key d d' h, C18_range_bytes _ (fun b _ => sha256_bytes b) key d⟩
+
+theorem C18_digest_text (cps : List Nat) (d : Nat) :
+    defaultMd5 ⟨true, cps⟩ d = defaultMd5 ⟨false, utf8 cps⟩ d ∧
+    defaultSha256 ⟨true, cps⟩ d = defaultSha256 ⟨false, utf8 cps⟩ d := ⟨rfl, rfl⟩
 
 /-! ### published test vectors (tests, labelled as such) and non-vacuity -/
 
